@@ -801,21 +801,34 @@ static void diagnose_get(rm_t *H, int row, const char *phase, int present, uint6
   if (strcmp(key, "get-stale-level0-file-number-order") == 0) {
     H->f4_keys++;
     vh_count("f4_observed_keys", 1);
-    viol(H, key, "%s: key '%s': expected %s%s vid=%llx seq=%llu in table #%llu (L0 now, L%d before repair); ldb_get returned %s "
+    viol(H, key, "%s: key '%s': expected %s vid=%llx seq=%llu in table #%llu (L0 now, L%d before repair); ldb_get returned %s "
          "= the entry seq=%llu of table #%llu (L0), an OLDER version in a table with a HIGHER number; iterators return the "
          "expected version (fwd %s, bwd %s); live tables holding the key: %s; layout-now=%s",
-         phase, vh_esc(H->m.rows[row].key, H->m.rows[row].klen), present ? "value" : "deletion", "",
+         phase, vh_esc(H->m.rows[row].key, H->m.rows[row].klen), present ? "value" : "deletion",
          (unsigned long long)(ev ? ev->vid : 0), (unsigned long long)ver, (unsigned long long)nt,
          nt < H->pre_level_cap ? H->pre_level[nt] : -1, res_str(H, row, g), (unsigned long long)ss, (unsigned long long)st,
          res_str(H, row, f), res_str(H, row, b), tables, H->diag_layout_ok ? layout_sig(&H->diag_layout) : "?");
     return;
   }
-  viol(H, key, "%s: key '%s'%s: expected %s vid=%llx len=%u seq=%llu (table #%llu, L%d now, L%d before repair, source %s #%llu); "
+  if (touched) {
+    int was_present = H->E[row].have && H->E[row].present;
+    int is_repaired = was_present ? (g->found && g->ver == H->E[row].seq) : !g->found;
+    viol(H, key, "%s: key '%s' was %s by the follow-up after the repair (value vid=%llx len=%u, model seq %llu) but ldb_get returns "
+         "%s (table #%llu, L%d)%s; the repair had brought back %s seq=%llu; iterator fwd=%s bwd=%s; live tables holding the key: %s; "
+         "layout-now=%s", phase, vh_esc(H->m.rows[row].key, H->m.rows[row].klen), present ? "overwritten" : "deleted",
+         (unsigned long long)(ev ? ev->vid : 0), ev ? ev->vlen : 0, (unsigned long long)ver, res_str(H, row, g),
+         (unsigned long long)got_table, got_table ? live_level(H, got_table) : -1,
+         is_repaired ? " = what the repair had brought back: the newer write is shadowed by older data" : "",
+         H->E[row].have ? (H->E[row].present ? "a value" : "a deletion") : "nothing", (unsigned long long)H->E[row].seq,
+         res_str(H, row, f), res_str(H, row, b), tables, H->diag_layout_ok ? layout_sig(&H->diag_layout) : "?");
+    return;
+  }
+  viol(H, key, "%s: key '%s': expected %s vid=%llx len=%u seq=%llu (table #%llu, L%d now, L%d before repair, source %s #%llu); "
        "ldb_get returned %s (table #%llu, L%d); iterator fwd=%s bwd=%s (%s); live tables holding the key: %s; layout-now=%s",
-       phase, vh_esc(H->m.rows[row].key, H->m.rows[row].klen), touched ? " (written by the follow-up)" : "",
+       phase, vh_esc(H->m.rows[row].key, H->m.rows[row].klen),
        present ? "value" : "absent", (unsigned long long)(ev ? ev->vid : 0), ev ? ev->vlen : 0, (unsigned long long)ver,
-       (unsigned long long)exp_table, exp_table ? live_level(H, exp_table) : -1, touched ? -1 : H->E[row].level,
-       (!touched && H->E[row].is_log) ? "log" : "table", (unsigned long long)(touched ? 0 : H->E[row].file),
+       (unsigned long long)exp_table, exp_table ? live_level(H, exp_table) : -1, H->E[row].level,
+       H->E[row].is_log ? "log" : "table", (unsigned long long)H->E[row].file,
        res_str(H, row, g), (unsigned long long)got_table, got_table ? live_level(H, got_table) : -1, res_str(H, row, f),
        res_str(H, row, b), iter_ok ? "iterators right" : "iterators wrong too", tables,
        H->diag_layout_ok ? layout_sig(&H->diag_layout) : "?");
@@ -1049,7 +1062,7 @@ static void repair_part(rm_t *H) {
   exp_t *P;
   size_t nrows = H->m.nrows, i;
   int rc, any_multi = 0, any_mis = 0, mis_keys = 0, lost_tables = 0, wal_nonempty;
-  uint64_t ctr[8];
+  uint64_t ctr[8], max_seq_disk = 0;
   size_t ntab = 0, nlog = 0;
   cfg_t c;
   int gate, parked;
@@ -1059,7 +1072,7 @@ static void repair_part(rm_t *H) {
   apply_metadata_loss(H);
   if (H->extra != X_NONE) H->extra = apply_extra_loss(H, H->extra);
   H->lost_data = H->extra != X_NONE;
-  vh_count(variant_name[H->variant], 1);
+  { char nm[64]; snprintf(nm, sizeof(nm), "variant_%s", variant_name[H->variant]); vh_count(nm, 1); }
   { char nm[64]; snprintf(nm, sizeof(nm), "extra_%s", extra_name[H->extra]); vh_count(nm, 1); }
 
   /* --- 4. expectation from the surviving files, with the independent decoders */
@@ -1191,6 +1204,7 @@ static void repair_part(rm_t *H) {
            (unsigned long long)P[first].file, pre.wal_records);
   }
   free(P);
+  for (i = 0; i < post.n; i++) if (post.e[i].seq > max_seq_disk) max_seq_disk = post.e[i].seq;
   disk_free(&post);
 
   DBG_T("post-repair decode");
@@ -1205,6 +1219,10 @@ static void repair_part(rm_t *H) {
     goto out;
   }
   ldb_verif_counters(H->h.db, ctr);
+  if (ctr[3] < max_seq_disk)
+    viol(H, "sequence-not-above-existing", "after repair + open the last sequence number is %llu but the tables hold entries up "
+         "to sequence %llu: those entries are invisible now and later writes will be ordered BELOW them",
+         (unsigned long long)ctr[3], (unsigned long long)max_seq_disk);
   {
     /* (vi) continued: every table that was on disk before is live now or archived */
     layout_t l;
@@ -1294,16 +1312,13 @@ static void pre_close_sanity(rm_t *H) {
   }
 }
 
-static double dbg_kind_t[12]; static int dbg_kind_n[12];
 static void random_step(rm_t *H) {
   static const int w_put = 300, w_del = 70, w_batch = 50, w_flush = 28, w_crange = 40, w_cman = 5, w_call = 2,
                    w_reopen = 6, w_snap = 20, w_unsnap = 18;
   int total = w_put + w_del + w_batch + w_flush + w_crange + w_cman + w_call + w_reopen + w_snap + w_unsnap;
   int c = (int)vr_uniform(&H->r, (uint32_t)total);
   int row = pick_row(H);
-#define TAKE(x) (kind++, c < (x) ? 1 : (c -= (x), 0))
-  int kind = -1;
-  double t0 = vh_now();
+#define TAKE(x) (c < (x) ? 1 : (c -= (x), 0))
   if (TAKE(w_put)) do_put(H, row, pick_vlen(H));
   else if (TAKE(w_del)) do_del(H, row);
   else if (TAKE(w_batch)) do_batch(H);
@@ -1314,7 +1329,6 @@ static void random_step(rm_t *H) {
   else if (TAKE(w_reopen)) do_reopen(H);
   else if (TAKE(w_snap)) snap_take(H);
   else if (H->nsnaps > 0) snap_release_at(H, (int)vr_uniform(&H->r, (uint32_t)H->nsnaps));
-  dbg_kind_t[kind] += vh_now() - t0; dbg_kind_n[kind]++;
 #undef TAKE
 }
 
@@ -1451,7 +1465,6 @@ static void run_case(uint64_t seed, int caseidx, const char *base, const opts_t 
               H->reopens, H->snaps_taken, H->end_wal ? "wal" : "flushed", H->pre_sig, variant_name[H->variant],
               extra_name[H->extra], live, multi, mis, H->f4_keys, H->other_viol, vh_now() - t0);
   }
-  if (getenv("RM_DEBUG")) { int q; for (q = 0; q < 10; q++) fprintf(stderr, "[rm] kind %d n=%d t=%.3f\n", q, dbg_kind_n[q], dbg_kind_t[q]); }
   if (getenv("RM_DEBUG")) fprintf(stderr, "[rm] case %d wall %.2fs steps %d big %d\n", caseidx, vh_now() - t0, H->steps, H->allow_big);
   diag_drop(H);
   dbh_destroy(&H->h);
